@@ -259,7 +259,7 @@ class DBStorage(BaseStorage):
                             old_ts = created_at
                             break
                     else:
-                        tag = found_tag[0]
+                        tag = found_tag[0] if found_tag else ()
                         if len(tag) > 1 and tag[1] == d_tag:
                             delete_id = old_id
                             old_ts = created_at
